@@ -2,6 +2,7 @@ package hz
 
 import (
 	"bufio"
+	"crypto/sha256"
 	"encoding/hex"
 	"encoding/json"
 	"fmt"
@@ -13,27 +14,30 @@ import (
 	abci "github.com/tendermint/tendermint/abci/types"
 )
 
-// Scenario is a list of abstract steps executed against one (or more) nodes.
+// Scenario is a list of abstract steps executed against one node (plus, with Twin, an ideal node in lockstep).
 type Scenario struct {
 	ID       string `json:"id"`
 	World    string `json:"world,omitempty"`
 	WorldDef *World `json:"worldDef,omitempty"`
 	Steps    []Step `json:"steps"`
 	Backend  string `json:"backend,omitempty"` // mem | leveldb
-	NoProj   bool   `json:"noProj,omitempty"`  // twin mode: no state projection, only responses and hashes
+	NoProj   bool   `json:"noProj,omitempty"`  // no state projection, only responses, hashes and digests
 	Family   string `json:"family,omitempty"`
+	Twin     bool   `json:"twin,omitempty"` // run an ideal node (never restarted, never crashed) in lockstep and log both
+	Lean     bool   `json:"lean,omitempty"` // log digests instead of full states (long histories)
 }
 
 // Step is one scenario step.
 type Step struct {
-	Op       string   `json:"op"` // block | skip | restart | crash | export_import | snapshot
+	Op       string   `json:"op"` // block | skip | restart | export_import | snapshot | restore
 	Txs      []TxSpec `json:"txs,omitempty"`
 	Absent   []string `json:"absent,omitempty"`
 	Evidence []string `json:"evidence,omitempty"`
-	Dt       int64    `json:"dt,omitempty"`   // extra seconds added to the clock before this block
-	Hour     int      `json:"hour,omitempty"` // 1..24: move the clock forward to the next time with this hour-1 (UTC)
-	N        int      `json:"n,omitempty"`    // skip: number of empty blocks
-	K        int      `json:"k,omitempty"`    // crash: die after the k-th write of this block's commit
+	Dt       int64    `json:"dt,omitempty"`    // extra seconds added to the clock before this block
+	Hour     int      `json:"hour,omitempty"`  // 1..24: move the clock forward to the next time with hour-1 (UTC)
+	N        int      `json:"n,omitempty"`     // skip: number of empty blocks
+	K        int      `json:"k,omitempty"`     // block: the process dies after the k-th database write of this block's commit
+	After    string   `json:"after,omitempty"` // block: the process dies after the first commit write whose label has this prefix
 }
 
 // RecTx is the abstract description of a delivered transaction (ground truth included).
@@ -82,6 +86,24 @@ type RecEnd struct {
 	MaxGas  int64       `json:"maxGas"`
 }
 
+// Obs is what an outside observer (consensus engine, API client) can see of a node after a call.
+type Obs struct {
+	Code     uint32 `json:"code"`
+	Gas      int64  `json:"gas"`
+	TagsD    string `json:"tagsD"`
+	Data     string `json:"data"`
+	Updates  string `json:"updates"`
+	Hash     string `json:"hash"`     // app hash returned by Commit / Info
+	Height   int64  `json:"height"`   // Info().LastBlockHeight
+	StD      string `json:"stD"`      // digest of the memory projection (queries on the current state)
+	DiskD    string `json:"diskD"`    // digest of the export of the committed state
+	Emission string `json:"emission"` // emission as the node reports it
+	Versions string `json:"versions"`
+	Vals     string `json:"vals"`
+	Price    string `json:"price"`
+	Panic    string `json:"panic"`
+}
+
 // Rec is one trace record (one ABCI call or harness step).
 type Rec struct {
 	Sc     string      `json:"sc"`
@@ -103,6 +125,10 @@ type Rec struct {
 	Writes []string    `json:"writes,omitempty"`
 	Unit   string      `json:"unit,omitempty"`
 	Cfg    *RecCfg     `json:"cfg,omitempty"`
+	Replay bool        `json:"replay"`          // a step re-executed by the handshake emulation after a crash
+	Obs    *Obs        `json:"obs,omitempty"`   // twin scenarios: what node A shows
+	Ideal  *Obs        `json:"ideal,omitempty"` // twin scenarios: what the ideal node shows
+	Fault  string      `json:"fault,omitempty"` // crash: label of the last write that reached the disk
 }
 
 // RecCfg carries the world constants the trace spec needs (first record of every scenario).
@@ -154,16 +180,46 @@ func tagsOf(evs []abci.Event) map[string]string {
 	return m
 }
 
+func digest(v interface{}) string {
+	b, err := json.Marshal(v)
+	if err != nil {
+		return "err:" + err.Error()
+	}
+	h := sha256.Sum256(b)
+	return hex.EncodeToString(h[:8])
+}
+
+// stateDigest is the digest of the current-state projection. Between blocks the reward pool variable still holds
+// the fees of the block just committed (it is reset by the next BeginBlock and is not observable), so it is left out there.
+func stateDigest(a *Abs, kind string) string {
+	switch kind {
+	case "Init", "Commit", "Restart", "Recover", "Recovered", "Restored", "EndBlock":
+		cp := *a
+		cp.RewardPool = "0"
+		return digest(&cp)
+	}
+	return digest(a)
+}
+
+type builtBlock struct {
+	req  abci.RequestBeginBlock
+	raws [][]byte
+	h    uint64
+}
+
 type runCtx struct {
 	r     *Runner
 	sc    *Scenario
 	nd    *Node
+	id    *Node // ideal twin (nil unless sc.Twin)
 	u     *Universe
+	iu    *Universe
 	tb    *txBuilder
 	i     int
 	h     uint64 // height of the last committed block
 	clock int64
 	dead  bool
+	idead bool
 }
 
 func (c *runCtx) rec(kind string, h uint64) *Rec {
@@ -171,14 +227,42 @@ func (c *runCtx) rec(kind string, h uint64) *Rec {
 	return &Rec{Sc: c.sc.ID, I: c.i, Node: c.nd.ID, Kind: kind, H: h, Check: -1}
 }
 
+// proj logs the memory projection of node A (full state, or only its digest in lean scenarios) and, with a twin, of the ideal node.
 func (c *runCtx) proj(rec *Rec, h uint64) {
-	if c.sc.NoProj || c.dead {
+	if c.dead {
 		return
 	}
-	res := guard(func() { rec.St = ProjectMem(c.nd, c.u, h) })
-	if res.Panic != "" && rec.Panic == "" {
-		rec.Panic = "projection: " + res.Panic
-		rec.Stack = res.Stack
+	if !c.sc.NoProj {
+		var a *Abs
+		res := guard(func() { a = ProjectMem(c.nd, c.u, h) })
+		if res.Panic != "" {
+			if rec.Panic == "" {
+				rec.Panic = "projection: " + res.Panic
+				rec.Stack = res.Stack
+			}
+		} else {
+			if !c.sc.Lean {
+				rec.St = a
+			}
+			if rec.Obs != nil {
+				rec.Obs.StD = stateDigest(a, rec.Kind)
+				rec.Obs.Emission = a.Emission
+				rec.Obs.Versions = digest(a.Versions)
+				rec.Obs.Price = digest(a.PriceRec)
+			}
+		}
+	}
+	if c.id != nil && !c.idead && rec.Ideal != nil && !c.sc.NoProj {
+		var a *Abs
+		res := guard(func() { a = ProjectMem(c.id, c.iu, h) })
+		if res.Panic == "" {
+			rec.Ideal.StD = stateDigest(a, rec.Kind)
+			rec.Ideal.Emission = a.Emission
+			rec.Ideal.Versions = digest(a.Versions)
+			rec.Ideal.Price = digest(a.PriceRec)
+		} else {
+			rec.Ideal.Panic = "projection: " + res.Panic
+		}
 	}
 }
 
@@ -197,16 +281,41 @@ func (c *runCtx) diskProjection(rec *Rec) {
 	res := guard(func() {
 		st := c.nd.App.VerifDeliverState().Export()
 		c.u.AbsorbExport(&st)
-		if !c.sc.NoProj {
-			rec.Disk = ProjectDisk(c.nd, &st, c.u)
-			rec.Disk.H = rec.H
+		d := ProjectDisk(c.nd, &st, c.u)
+		d.H = rec.H
+		if !c.sc.NoProj && !c.sc.Lean {
+			rec.Disk = d
 		}
 		ar := ReadAppRecords(c.nd.Disk)
 		rec.App = &ar
+		if rec.Obs != nil {
+			rec.Obs.DiskD = digest(d)
+			rec.Obs.Vals = ar.Vals
+		}
 	})
 	if res.Panic != "" && rec.Panic == "" {
 		rec.Panic = "export: " + res.Panic
 		rec.Stack = res.Stack
+	}
+	if c.id != nil && !c.idead && rec.Ideal != nil {
+		ires := guard(func() {
+			st := c.id.App.VerifDeliverState().Export()
+			c.iu.AbsorbExport(&st)
+			d := ProjectDisk(c.id, &st, c.iu)
+			d.H = rec.H
+			rec.Ideal.DiskD = digest(d)
+			rec.Ideal.Vals = ReadAppRecords(c.id.Disk).Vals
+		})
+		if ires.Panic != "" {
+			rec.Ideal.Panic = "export: " + ires.Panic
+		}
+	}
+}
+
+func (c *runCtx) twinObs(rec *Rec) {
+	if c.id != nil {
+		rec.Obs = &Obs{}
+		rec.Ideal = &Obs{}
 	}
 }
 
@@ -226,6 +335,17 @@ func (r *Runner) RunScenario(sc *Scenario) {
 	nd, res := NewNode("A", w, n, backend, dir)
 	defer nd.Close()
 	c := &runCtx{r: r, sc: sc, nd: nd, u: NewUniverse()}
+	if sc.Twin {
+		r.seq++
+		var ires CallResult
+		c.id, ires = NewNode("I", w, n, "mem", fmt.Sprintf("%s/n%d", r.WorkDir, r.seq))
+		defer c.id.Close()
+		c.iu = NewUniverse()
+		c.iu.Checks = c.u.Checks
+		if ires.Panic != "" {
+			c.idead = true
+		}
+	}
 	c.h = uint64(w.InitialHeight) - 1
 	c.clock = w.StartTime
 	init := c.rec("Init", c.h)
@@ -236,12 +356,14 @@ func (r *Runner) RunScenario(sc *Scenario) {
 		r.emit(init)
 		return
 	}
+	c.twinObs(init)
 	c.tb = &txBuilder{n: n, unit: w.UnitInt(), built: map[string]*BuiltTx{}, checks: c.u.Checks, height: func() uint64 { return c.h + 1 }}
 	c.diskProjection(init)
 	c.proj(init, c.h)
 	if info, ires := nd.Info(); ires.Panic == "" {
 		init.Hash = hex.EncodeToString(info.LastBlockAppHash)
 	}
+	c.infoObs(init)
 	r.emit(init)
 	r.Stats["scenarios"]++
 	for si := range sc.Steps {
@@ -261,18 +383,7 @@ func (r *Runner) RunScenario(sc *Scenario) {
 				c.block(&Step{Op: "block"})
 			}
 		case "restart":
-			rec := c.rec("Restart", c.h)
-			res := nd.Restart()
-			if !c.fail(rec, res) {
-				if info, ires := nd.Info(); ires.Panic == "" {
-					rec.Hash = hex.EncodeToString(info.LastBlockAppHash)
-					rec.Resp.Gas = info.LastBlockHeight
-				}
-				ar := ReadAppRecords(nd.Disk)
-				rec.App = &ar
-				c.proj(rec, c.h)
-			}
-			r.emit(rec)
+			c.restart("Restart")
 		default:
 			panic("unknown step op " + st.Op)
 		}
@@ -280,6 +391,67 @@ func (r *Runner) RunScenario(sc *Scenario) {
 	if c.dead {
 		r.Stats["cut"]++
 	}
+}
+
+func (c *runCtx) infoObs(rec *Rec) {
+	if rec.Obs == nil {
+		return
+	}
+	if info, ires := c.nd.Info(); ires.Panic == "" {
+		rec.Obs.Hash, rec.Obs.Height = hex.EncodeToString(info.LastBlockAppHash), info.LastBlockHeight
+	}
+	if c.id != nil && !c.idead {
+		if info, ires := c.id.Info(); ires.Panic == "" {
+			rec.Ideal.Hash, rec.Ideal.Height = hex.EncodeToString(info.LastBlockAppHash), info.LastBlockHeight
+		}
+	}
+}
+
+func (c *runCtx) restart(kind string) *Rec {
+	nd := c.nd
+	rec := c.rec(kind, c.h)
+	c.twinObs(rec)
+	res := nd.Restart()
+	if !c.fail(rec, res) {
+		if info, ires := nd.Info(); ires.Panic == "" {
+			rec.Hash = hex.EncodeToString(info.LastBlockAppHash)
+			rec.Resp.Gas = info.LastBlockHeight
+		}
+		c.infoObs(rec)
+		ar := ReadAppRecords(nd.Disk)
+		rec.App = &ar
+		if rec.Obs != nil {
+			rec.Obs.Vals = ar.Vals
+			if c.id != nil && !c.idead {
+				rec.Ideal.Vals = ReadAppRecords(c.id.Disk).Vals
+			}
+		}
+		c.proj(rec, c.h)
+	}
+	c.r.emit(rec)
+	c.r.Stats["restarts"]++
+	return rec
+}
+
+func obsResp(o *Obs, code uint32, gas int64, tags map[string]string, data []byte) {
+	if o == nil {
+		return
+	}
+	o.Code, o.Gas, o.TagsD, o.Data = code, gas, digest(tags), hex.EncodeToString(data)
+}
+
+func updatesOf(nd *Node, er abci.ResponseEndBlock) *RecEnd {
+	re := &RecEnd{Updates: []RecValUpd{}}
+	for _, u := range er.ValidatorUpdates {
+		var pk [32]byte
+		copy(pk[:], u.PubKey.GetEd25519())
+		re.Updates = append(re.Updates, RecValUpd{P: nd.N.PubName(pk), Power: u.Power})
+	}
+	sort.Slice(re.Updates, func(i, j int) bool { return re.Updates[i].P < re.Updates[j].P })
+	if er.ConsensusParamUpdates != nil && er.ConsensusParamUpdates.Block != nil {
+		re.MaxGas = er.ConsensusParamUpdates.Block.MaxGas
+	}
+	return re
 }
 
 func (c *runCtx) block(st *Step) {
@@ -294,14 +466,17 @@ func (c *runCtx) block(st *Step) {
 		c.clock = t.Unix()
 	}
 	t := time.Unix(c.clock, 0).UTC()
+	bb := &builtBlock{h: h}
 	// BeginBlock
 	var req abci.RequestBeginBlock
 	rec := c.rec("BeginBlock", h)
+	c.twinObs(rec)
 	pres := guard(func() { req = nd.BeginReq(h, t, st.Absent, st.Evidence) })
 	if c.fail(rec, pres) {
 		c.r.emit(rec)
 		return
 	}
+	bb.req = req
 	rb := &RecBegin{Time: t.Unix(), Hour: t.Hour(), Absent: append([]string{}, st.Absent...), Evidence: append([]string{}, st.Evidence...), Present: []string{}}
 	abs := map[string]bool{}
 	for _, a := range st.Absent {
@@ -340,6 +515,12 @@ func (c *runCtx) block(st *Step) {
 	}
 	res := nd.Begin(req)
 	c.fail(rec, res)
+	if c.id != nil && !c.idead {
+		if ires := c.id.Begin(req); ires.Panic != "" {
+			rec.Ideal.Panic = ires.Panic
+			c.idead = true
+		}
+	}
 	c.proj(rec, h)
 	c.r.emit(rec)
 	if c.dead {
@@ -366,6 +547,7 @@ func (c *runCtx) block(st *Step) {
 			c.r.emit(rec)
 			return
 		}
+		bb.raws = append(bb.raws, bt.Raw)
 		rtx := &RecTx{ID: spec.ID, Type: spec.Type, Sender: bt.Sender, From: bt.Spec.From, SignedBy: bt.SignedBy, Intact: bt.Intact, Multi: bt.Spec.Multi,
 			Nonce: bt.Nonce, Chain: bt.Chain, GasCoin: cstr(bt.GasCoin), GasPrice: cstr(uint64(bt.GasPrice)), Bytes: bt.Bytes, Args: bt.Abs,
 			Mut: bt.Spec.Mut, DupOf: bt.DupOf, Hash: shortHash(bt.Raw), Len: len(bt.Raw)}
@@ -390,11 +572,22 @@ func (c *runCtx) block(st *Step) {
 			checkCode = int64(cr.Code)
 		}
 		drec := c.rec("DeliverTx", h)
+		c.twinObs(drec)
 		drec.Tx = rtx
 		drec.Check = checkCode
 		dr, dres := nd.Deliver(bt.Raw)
-		drec.Resp = RecResp{Code: dr.Code, Gas: dr.GasUsed, Tags: tagsOf(dr.Events), Log: dr.Log}
+		tags := tagsOf(dr.Events)
+		drec.Resp = RecResp{Code: dr.Code, Gas: dr.GasUsed, Tags: tags, Log: dr.Log}
+		obsResp(drec.Obs, dr.Code, dr.GasUsed, tags, dr.Data)
 		c.fail(drec, dres)
+		if c.id != nil && !c.idead {
+			ir, ires := c.id.Deliver(bt.Raw)
+			obsResp(drec.Ideal, ir.Code, ir.GasUsed, tagsOf(ir.Events), ir.Data)
+			if ires.Panic != "" {
+				drec.Ideal.Panic = ires.Panic
+				c.idead = true
+			}
+		}
 		c.proj(drec, h)
 		c.r.emit(drec)
 		c.r.Stats["tx"]++
@@ -413,43 +606,149 @@ func (c *runCtx) block(st *Step) {
 				case uint32:
 					c.u.VoteH[uint64(x)], c.u.Heights[uint64(x)] = true, true
 				}
+				if c.iu != nil {
+					for hh := range c.u.VoteH {
+						c.iu.VoteH[hh] = true
+					}
+					for hh := range c.u.Heights {
+						c.iu.Heights[hh] = true
+					}
+				}
 			}
 		}
 	}
 	// EndBlock
 	erec := c.rec("EndBlock", h)
+	c.twinObs(erec)
 	er, eres := nd.End(h)
 	c.fail(erec, eres)
 	if !c.dead {
-		re := &RecEnd{Updates: []RecValUpd{}}
-		for _, u := range er.ValidatorUpdates {
-			var pk [32]byte
-			copy(pk[:], u.PubKey.GetEd25519())
-			re.Updates = append(re.Updates, RecValUpd{P: nd.N.PubName(pk), Power: u.Power})
+		erec.End = updatesOf(nd, er)
+		if erec.Obs != nil {
+			erec.Obs.Updates = digest(erec.End)
 		}
-		sort.Slice(re.Updates, func(i, j int) bool { return re.Updates[i].P < re.Updates[j].P })
-		if er.ConsensusParamUpdates != nil && er.ConsensusParamUpdates.Block != nil {
-			re.MaxGas = er.ConsensusParamUpdates.Block.MaxGas
+	}
+	if c.id != nil && !c.idead {
+		ir, ires := c.id.End(h)
+		if ires.Panic != "" {
+			erec.Ideal.Panic = ires.Panic
+			c.idead = true
+		} else {
+			erec.Ideal.Updates = digest(updatesOf(c.id, ir))
 		}
-		erec.End = re
 	}
 	c.proj(erec, h)
 	c.r.emit(erec)
 	if c.dead {
 		return
 	}
-	// Commit
+	// Commit (possibly with an injected crash)
+	crash := st.K > 0 || st.After != ""
 	crec := c.rec("Commit", h)
-	nd.Disk.WC.Arm(0)
+	c.twinObs(crec)
+	if c.id != nil && !c.idead {
+		ir, ires := c.id.Commit()
+		if ires.Panic != "" {
+			crec.Ideal.Panic = ires.Panic
+			c.idead = true
+		} else {
+			crec.Ideal.Hash = hex.EncodeToString(ir.Data)
+		}
+	}
+	if crash {
+		nd.Disk.WC.ArmLabel(st.K, st.After)
+	} else {
+		nd.Disk.WC.Arm(0)
+	}
 	cr, cres := nd.Commit()
 	_, crec.Writes = nd.Disk.WC.Disarm()
+	if cres.Crashed {
+		c.recover(crec, bb, h)
+		return
+	}
 	c.fail(crec, cres)
 	if !c.dead {
 		crec.Hash = hex.EncodeToString(cr.Data)
+		if crec.Obs != nil {
+			crec.Obs.Hash = crec.Hash
+		}
 		c.h = h
 		c.diskProjection(crec)
 	}
 	c.proj(crec, h)
 	c.r.emit(crec)
+	c.r.Stats["blocks"]++
+}
+
+// recover plays the part of Tendermint after the process died during Commit of block h:
+// restart, handshake (Info), re-delivery of block h when the application reports h-1, then comparison with the ideal node.
+func (c *runCtx) recover(crec *Rec, bb *builtBlock, h uint64) {
+	nd := c.nd
+	crec.Kind = "Crash"
+	if len(crec.Writes) > 0 {
+		crec.Fault = crec.Writes[len(crec.Writes)-1]
+	}
+	crec.Resp.Gas = int64(len(crec.Writes))
+	c.r.emit(crec)
+	c.r.Stats["crashes"]++
+	rrec := c.restart("Recover")
+	if c.dead {
+		return
+	}
+	appH := uint64(rrec.Resp.Gas)
+	switch {
+	case appH == h:
+		// Tendermint replays block h against a mock application: the real application sees nothing
+	case appH == h-1:
+		steps := []string{"BeginBlock"}
+		res := nd.Begin(bb.req)
+		if res.Panic == "" {
+			for _, raw := range bb.raws {
+				_, res = nd.Deliver(raw)
+				steps = append(steps, "DeliverTx")
+				if res.Panic != "" {
+					break
+				}
+			}
+		}
+		if res.Panic == "" {
+			_, res = nd.End(h)
+			steps = append(steps, "EndBlock")
+		}
+		var cr abci.ResponseCommit
+		if res.Panic == "" {
+			cr, res = nd.Commit()
+			steps = append(steps, "Commit")
+		}
+		rp := c.rec("Replayed", h)
+		rp.Replay = true
+		c.twinObs(rp)
+		rp.Resp.Log = strings.Join(steps, ",")
+		if !c.fail(rp, res) {
+			rp.Hash = hex.EncodeToString(cr.Data)
+			if rp.Obs != nil {
+				rp.Obs.Hash = rp.Hash
+			}
+		}
+		c.r.emit(rp)
+		if c.dead {
+			return
+		}
+	default:
+		// neither h nor h-1: the consensus engine cannot continue from here
+		bad := c.rec("Unrecoverable", h)
+		bad.Resp.Gas = int64(appH)
+		c.dead = true
+		c.r.emit(bad)
+		return
+	}
+	c.h = h
+	done := c.rec("Recovered", h)
+	c.twinObs(done)
+	done.Resp.Gas = int64(appH)
+	c.infoObs(done)
+	c.diskProjection(done)
+	c.proj(done, h)
+	c.r.emit(done)
 	c.r.Stats["blocks"]++
 }
